@@ -34,10 +34,10 @@ import (
 var vtName = regexp.MustCompile(`\bvt[A-Z](\d+)`)
 
 type delit struct {
-	fset    *token.FileSet
-	n       int
-	old     map[string]bool // printed texts of the function literals that existed before inlining
-	changed int
+	fset     *token.FileSet
+	n        int
+	old      map[string]bool // printed texts of the function literals that existed before inlining
+	changed  int
 	consumed map[*ast.FuncLit]bool // literals whose body was spliced into the enclosing function
 	// breakable context of the statement being processed
 	brk []*brkCtx
